@@ -63,7 +63,7 @@ def trunc_ms(t):
 def build(langs_times, rng):
     abstract = {}
     for li, times in enumerate(langs_times):
-        abstract[["en-US", "fr-FR"][li]] = [(a, b, capio.nodes_from_lines([gen.plain_line(rng) for _ in range(rng.randint(1, 2))])) for (a, b) in times]
+        abstract[["en-US", "fr-FR", "de-DE"][li]] = [(a, b, capio.nodes_from_lines([gen.plain_line(rng) for _ in range(rng.randint(1, 2))])) for (a, b) in times]
     return abstract
 
 
@@ -114,7 +114,11 @@ def explore(chk):
              [[(0, 0), (1000, 2000), (2000, 2000), (2500, 3999)]],
              [[(999, 1000), (1000, 1001), (1001, 2000400), (2000900, 3000000)]],
              [[(1000000, 2000000), (1000000, 3000000), (1000000, 2000000), (4000000, 5000000)]],
-             [[(0, 999), (40000, 79999)], [(0, 400), (1000000, 1000400)]]]
+             [[(0, 999), (40000, 79999)], [(0, 400), (1000000, 1000400)]],
+             # a second language that starts before every cue of the first and later shares instants with it
+             [[(1000000, 2000000), (5000000, 6000000)], [(200000, 1000000), (1000000, 2000000), (5000000, 6000000)]],
+             [[(3000000, 4000000), (5000000, 6000000), (8000000, 9000000)], [(500000, 900000), (3000000, 4000000), (4000000, 5000000)],
+              [(100000, 200000), (5000000, 6000000)]]]
     for i in range(N + len(FIXED)):
         nl = rng.choice([1, 1, 1, 2])
         langs_times = [rand_times(rng, rng.randint(1, 8)) for _ in range(nl)]
@@ -133,14 +137,19 @@ def explore(chk):
                "sami": b.add("sami.plan", "|".join(core.enc_list(times, lambda ab: capio.fr(ab[0]) + ";" + capio.fr(ab[1])) for times in langs_times))}
         jobs.append((abstract, langs_times, ops))
     out = b.run() if chk.driver_ok else None
+    force_sub = chk.sub("dfxp_force_absent")
     for (abstract, langs_times, ops) in jobs:
         first = langs_times[0]
         frac = any(isinstance(t, float) for times in langs_times for ab in times for t in ab)
         for wname, W in writers:
             cs = capio.build_set(abstract)
             case = {"writer": wname, "set": {l: [(repr(a), repr(b_), [n[1] for n in ns if n[0] == "T"]) for (a, b_, ns) in caps] for l, caps in abstract.items()}}
+            # force= naming a language the set does not hold selects nothing: every language is written as without it
+            forced = wname in ("dfxp", "single") and force_sub.random() < 0.3
+            if forced:
+                case["force"] = "zz-ZZ"
             try:
-                doc = core.POOL.get(W).write(cs)
+                doc = core.POOL.get(W).write(cs, force="zz-ZZ") if forced else core.POOL.get(W).write(cs)
             except Exception as e:
                 chk.case(key=json.dumps(case, sort_keys=True), nontrivial=True)
                 chk.property_failure(dict(case, error=repr(e)), "%s writer raised on a valid caption set" % wname)
